@@ -100,6 +100,13 @@ def rule_body(ctx, fl):
             ctx.ob('C14.3', 'every iteration of the wait loop yields', not spin,
                    'no cycle of the wait loop avoids the yield: a waiter that spins without yielding can starve the '
                    'runner of the init routine when waiters occupy all workers', loc=w.loc)
+            for y in ys:
+                if y.block.id in lp['blocks'] and y.callee == 'myth_yield_ex_body':
+                    opt = const_int(y.args[0])
+                    from .c20 import STEAL_ONLY
+                    ctx.ob('C14.3', 'the waiter\'s yield serves the local run queue', opt is not None and opt != STEAL_ONLY,
+                           'the runner of the init routine may be suspended in the waiter\'s own run queue: a steal-only yield never '
+                           'resumes it (one worker: everybody waits forever)', loc=y.loc, detail='option %s' % opt)
             fresh = [l for l in f.loads_of(ST) if l.block.id in lp['blocks']]
             ctx.ob('C14.3', 'state re-read every iteration', len(fresh) >= 1 and all(l.volatile for l in fresh),
                    'the loop re-loads state (volatile) on every iteration', loc=w.loc)
@@ -180,6 +187,8 @@ def run(ctx):
 
 SYNC = 'src/myth_sync_func.h'
 MUTANTS = [
+    {'name': 'once waiters yield steal-only (seed5 C14/m2)', 'expect': 'C14.3',
+     'edits': [(SYNC, "    myth_yield();\n    s = once_control->state;", "    myth_yield_ex_body(myth_yield_option_steal_only);\n    s = once_control->state;")]},
     {'name': 'native myth_once passes its arguments to the wrong body', 'expect': 'C14.5',
      'edits': [('src/myth_if_native.c', "  return myth_once_body(once_control, init_routine);", "  init_routine();\n  return 0;")]},
     {'name': 'a caller that reads init goes straight to waiting (sweep M0431)', 'expect': 'C14.1',
